@@ -188,7 +188,8 @@ static void op_set(char *obs, int which, void *obj, const char *type, const char
 		else { sv = unhex(val, &vl); g_val.type = JWT_VALUE_JSON; g_val.json_val = (char *)sv; }
 		rc = do_set(which, obj, &g_val);
 		obs_append(obs, "rc=%d verr=%d", (int)rc, (int)g_val.error);
-		g_val.name = NULL; g_val.str_val = NULL; g_val.json_val = NULL;
+		/* the value members share a union: whatever this call left in it stays for the next one */
+		g_val.name = NULL;
 		free(name); free(sv);
 		return;
 	}
